@@ -1742,6 +1742,9 @@ class ObjReader:
         if m is not None:
             self.call_fn(m, [o, attr, v], {}, node)
             return
+        dc = self._dataclass(o.ci)
+        if dc is not None and dc[0]:
+            raise _MRaise()      # frozen
         o.d[attr] = v
 
     # -- calls
@@ -1792,12 +1795,54 @@ class ObjReader:
         finally:
             self.depth -= 1
 
+    def _dataclass(self, ci):
+        """None, or (frozen) when the class is a dataclass"""
+        for d in ci.node.decorator_list:
+            f = d.func if isinstance(d, ast.Call) else d
+            if A.norm(f) in ("dataclass", "dataclasses.dataclass"):
+                frozen = isinstance(d, ast.Call) and any(k.arg == "frozen" and isinstance(k.value, ast.Constant) and k.value.value for k in d.keywords)
+                return (bool(frozen),)
+        return None
+
     def construct(self, ci, args, kwargs, node):
         o = _MObj(ci)
         m = self.method(ci, "__init__")
-        if m is not None:
+        dc = self._dataclass(ci)
+        if m is not None and (dc is None or "__init__" in ci.methods):
             self.call_fn(m, [o] + list(args), kwargs, node)
-        elif args or kwargs:
+            return o
+        if dc is not None:
+            # the constructor a dataclass is given: its annotated fields in order, with their defaults
+            if any(self._dataclass(c) is None and any(isinstance(s_, ast.AnnAssign) for s_ in c.node.body) for c in self.repo.mro(ci)[1:]):
+                self.cant(node, "dataclass with an annotated base")
+            names, defaults = [], {}
+            for s_ in ci.node.body:
+                if isinstance(s_, ast.AnnAssign) and isinstance(s_.target, ast.Name) and "ClassVar" not in A.norm(s_.annotation):
+                    names.append(s_.target.id)
+                    if s_.value is not None:
+                        if not isinstance(s_.value, ast.Constant):
+                            self.cant(s_, "field default")
+                        defaults[s_.target.id] = s_.value.value
+            if len(args) > len(names):
+                raise _MRaise()
+            given = dict(zip(names, args))
+            for k, v in kwargs.items():
+                if k in given or k not in names:
+                    raise _MRaise()
+                given[k] = v
+            for n_ in names:
+                if n_ not in given:
+                    if n_ not in defaults:
+                        raise _MRaise()
+                    given[n_] = defaults[n_]
+                o.d[n_] = given[n_]
+            pi = self.method(ci, "__post_init__")
+            if pi is not None:
+                self.call_fn(pi, [o], {}, node)
+            return o
+        if ci.node.decorator_list or any(c is not ci and self.method(c, "__new__") for c in self.repo.mro(ci)):
+            self.cant(node, "how the class is constructed")
+        if args or kwargs:
             raise _MRaise()
         return o
 
@@ -1925,6 +1970,8 @@ class ObjReader:
                 return self.copy_of(args[0], e)
             if fv.origin == "typing:cast" and len(args) == 2:
                 return args[1]
+            if fv.origin == "dataclasses:replace" and len(args) == 1 and isinstance(args[0], _MObj) and self._dataclass(args[0].ci) is not None:
+                return self.construct(args[0].ci, [], dict(args[0].d, **kwargs), e)
             self.cant(e)
         if isinstance(fv, _MCls):
             return self.construct(fv.ci, args, kwargs, e)
@@ -2392,6 +2439,36 @@ def _scope_updates_model(ck, rci, rfields, attached, read):
     return verdict
 
 
+def element_rows(target, it):
+    """The element variable of a loop / comprehension over the references, with the rows written out: `for ref in refs` ->
+    ('ref', refs, {}); `for a, b, c in ((ref.x, ref.y, ref.z) for ref in refs)` (a list comprehension / list display of the
+    rows alike) -> ('ref', refs, {'a': ref.x, 'b': ref.y, 'c': ref.z}).  None when it is neither."""
+    if isinstance(target, ast.Name):
+        return target.id, it, {}
+    if isinstance(target, (ast.Tuple, ast.List)) and all(isinstance(x, ast.Name) for x in target.elts):
+        inner = strip_cast(it)
+        if isinstance(inner, ast.Call) and isinstance(inner.func, ast.Name) and inner.func.id in ("list", "tuple", "iter") and len(inner.args) == 1 and not inner.keywords:
+            inner = inner.args[0]
+        if isinstance(inner, (ast.GeneratorExp, ast.ListComp)) and len(inner.generators) == 1 and not inner.generators[0].ifs \
+                and isinstance(inner.generators[0].target, ast.Name) and isinstance(inner.elt, (ast.Tuple, ast.List)) \
+                and len(inner.elt.elts) == len(target.elts) and not any(isinstance(x, ast.Starred) for x in inner.elt.elts):
+            names = [x.id for x in target.elts]
+            if len(set(names)) == len(names) and inner.generators[0].target.id not in names:
+                return inner.generators[0].target.id, inner.generators[0].iter, dict(zip(names, inner.elt.elts))
+    return None
+
+
+def subst_names(e, table):
+    """`e` with the names of `table` replaced by the expressions they stand for"""
+    if not table or e is None:
+        return e
+
+    class T(ast.NodeTransformer):
+        def visit_Name(self, n):
+            return copy.deepcopy(table[n.id]) if isinstance(n.ctx, ast.Load) and n.id in table else n
+    return ast.fix_missing_locations(T().visit(copy.deepcopy(e)))
+
+
 def _hands_on_its_argument(ck, f, value, field):
     """is `value` (an expression of modifier `f`, locals written out) the modifier's argument for every kind of argument: None,
     an empty and a non-empty mapping as themselves or copied (context args); true / false with the same truth (the prevent flag)"""
@@ -2589,18 +2666,19 @@ def check(ck):
         at = rb.nodes(c)[0]
         par = rb.pm.get(c)
         cv = src = None
+        rows = {}
         made, heads = [], []
         through = []      # nodes every inheriting path must pass: where the list is rebuilt
         holders = set()   # (node, name) definitions that hold the rebuilt list
         if isinstance(par, (ast.ListComp, ast.GeneratorExp)) and par.elt is c and len(par.generators) == 1 and not par.generators[0].ifs \
-                and isinstance(par.generators[0].target, ast.Name):
+                and element_rows(par.generators[0].target, par.generators[0].iter) is not None:
             outer = par
             if isinstance(par, ast.GeneratorExp):
                 pp = rb.pm.get(par)
                 outer = pp if isinstance(pp, ast.Call) and A.call_attr(pp) == "list" and pp.args == [par] else None
             st = rb.stmt_of(c)
             if outer is not None and isinstance(st, ast.Assign) and st.value is outer and len(st.targets) == 1 and isinstance(st.targets[0], ast.Name):
-                cv, src = par.generators[0].target.id, par.generators[0].iter
+                cv, src, rows = element_rows(par.generators[0].target, par.generators[0].iter)
                 through = rb.nodes(st)
                 holders = {(i, st.targets[0].id) for i in rb.nodes(st)}
                 made = [d_ for i in rb.nodes(st) for d_ in rb.df.gen.get(i, []) if d_.name == st.targets[0].id]
@@ -2608,13 +2686,13 @@ def check(ck):
         elif isinstance(par, ast.Call) and A.call_attr(par) == "append" and par.args == [c] and isinstance(A.call_recv(par), ast.Name):
             st = rb.stmt_of(c)
             loop = rb.enclosing(st, (ast.For, ast.While))
-            if isinstance(loop, ast.For) and isinstance(loop.target, ast.Name) and not loop.orelse and A.sig_stmts(loop.body) == [st] \
+            if isinstance(loop, ast.For) and element_rows(loop.target, loop.iter) is not None and not loop.orelse and A.sig_stmts(loop.body) == [st] \
                     and isinstance(st, ast.Expr) and st.value is par:
                 lname = A.call_recv(par).id
                 heads = [n.id for n in rb.cfg.nodes if n.kind == "for" and n.ast is loop]
                 ld = single_def(rb, lname, heads[0]) if heads else None
                 if ld is not None and A.norm(ld.value) in ("[]", "list()"):
-                    cv, src = loop.target.id, loop.iter
+                    cv, src, rows = element_rows(loop.target, loop.iter)
                     through = heads
                     holders = {(ld.node, lname)}
                     made = [ld]
@@ -2627,7 +2705,7 @@ def check(ck):
         ok3 = cv is not None and isinstance(src, ast.Name) and src.id == P_REFS and all(d.kind == "param" for d in rb.df.reaching(through[0], P_REFS))
         if ok3:
             a = [A.arg_or_kw(c, i, n) for i, n in enumerate(("fn_reference", "args", "kwargs", "context_args"))]
-            ok3 = all(x is not None for x in a) and [A.norm(x) for x in a[:3]] == [cv + ".fn_reference", cv + ".args", cv + ".kwargs"] \
+            ok3 = all(x is not None for x in a) and [A.norm(subst_names(x, rows)) for x in a[:3]] == [cv + ".fn_reference", cv + ".args", cv + ".kwargs"] \
                 and is_inherited(a[3], at)
         # built after the update, on every inheriting path, and it is what is dispatched
         _same = []
